@@ -28,8 +28,9 @@ namespace Ptk.AgreeKey
 
 /-! ### digits -/
 
-/-- the character of the decimal digit `d` -/
-def dch (d : Nat) : Char := Char.ofNat (48 + d)
+/-- the character of the decimal digit `d`; a "digit" `d ≥ 10` (C01's `ArgKey.digit` ranges over
+    all naturals) stands for a character that is no digit: `:` -/
+def dch (d : Nat) : Char := if d < 10 then Char.ofNat (48 + d) else ':'
 
 theorem dch_facts : ∀ d : Fin 10,
     C04.isDigitC (dch d.val) = true ∧ (dch d.val).toNat - '0'.toNat = d.val ∧ dch d.val ≠ '-' := by
@@ -38,6 +39,18 @@ theorem dch_facts : ∀ d : Fin 10,
 theorem dch_digit {d : Nat} (h : d < 10) : C04.isDigitC (dch d) = true := (dch_facts ⟨d, h⟩).1
 theorem dch_val {d : Nat} (h : d < 10) : (dch d).toNat - '0'.toNat = d := (dch_facts ⟨d, h⟩).2.1
 theorem dch_ne_dash {d : Nat} (h : d < 10) : dch d ≠ '-' := (dch_facts ⟨d, h⟩).2.2
+
+theorem dch_big {d : Nat} (h : ¬ d < 10) : dch d = ':' := by simp [dch, h]
+
+theorem dch_ne_dash_all (d : Nat) : dch d ≠ '-' := by
+  by_cases h : d < 10
+  · exact dch_ne_dash h
+  · rw [dch_big h]; decide
+
+theorem dch_digit_iff (d : Nat) : C04.isDigitC (dch d) = decide (d < 10) := by
+  by_cases h : d < 10
+  · simp [dch_digit h, h]
+  · rw [dch_big h]; simp [h]; decide
 
 /-- the number a digit string stands for (`int(s)` for a string of digits) -/
 def val (s : List Char) : Nat := C04.digitsVal s 0
@@ -75,34 +88,96 @@ theorem all_digit_map (ds : List Nat) (h : ∀ x ∈ ds, x < 10) :
 /-- the string an `ArgStr` stands for: optional `-`, then the digits -/
 def str01 (a : C01.ArgStr) : List Char := (if a.neg then ['-'] else []) ++ a.digits.map dch
 
-/-- key_processor.py::KeyPressEvent.append_to_arg_count, a digit —
-    `Ptk.C04.appendArg` = `Ptk.C01.argAppend · (.digit d)` -/
-theorem arg_append_digit_C04_C01 (cur : Option C01.ArgStr) (d : Nat) (hd : d < 10) :
-    C04.appendArg (cur.map str01) (dch d) = (C01.argAppend cur (.digit d)).map str01 := by
-  have h1 := dch_digit hd
-  have h2 : (dch d == '-') = false := by simpa using dch_ne_dash hd
-  cases cur with
-  | none => simp [C04.appendArg, C01.argAppend, str01, h1, h2]
-  | some a => simp [C04.appendArg, C01.argAppend, str01, h1, h2]
+/-- the character an `ArgKey` stands for -/
+def keyCh : C01.ArgKey → Char
+  | .dash => '-'
+  | .digit d => dch d
 
-/-- key_processor.py::KeyPressEvent.append_to_arg_count, `-` —
-    `Ptk.C04.appendArg · '-'` = `Ptk.C01.argAppend · .dash` on the region where the `assert
-    current is None or current == "-"` of the code holds (C01 does not model the assert: the
-    bindings only reach this call with no argument or with `-`) -/
-theorem arg_append_dash_C04_C01 (cur : Option C01.ArgStr)
-    (h : cur = none ∨ ∃ a, cur = some a ∧ str01 a = ['-']) :
-    C04.appendArg (cur.map str01) '-' = (C01.argAppend cur .dash).map str01 := by
-  rcases h with rfl | ⟨a, rfl, ha⟩
-  · simp [C04.appendArg, C01.argAppend, str01]
-  · rw [Option.map_some, ha]
-    simp [C04.appendArg, C01.argAppend, str01]
+theorem str01_eq_dash (a : C01.ArgStr) :
+    (str01 a == ['-']) = (a.neg && a.digits.isEmpty) := by
+  obtain ⟨neg, ds⟩ := a
+  cases neg
+  · cases ds with
+    | nil => simp [str01]
+    | cons d ds =>
+      cases ds with
+      | nil => simp [str01, dch_ne_dash_all d]
+      | cons _ _ => simp [str01]
+  · cases ds <;> simp [str01]
 
-/-- outside that region the two models differ: after a digit, `-` fails the assert in C04 (and in
-    the code: AssertionError) while C01's `argAppend` restarts the argument with `-` -/
-theorem arg_append_dash_C04_C01_disagree :
-    C04.appendArg ((some ⟨false, [1]⟩ : Option C01.ArgStr).map str01) '-' = none ∧
-    (C01.argAppend (some ⟨false, [1]⟩) .dash).map str01 = some ['-'] := by
-  decide
+/-- key_processor.py::KeyPressEvent.append_to_arg_count — `Ptk.C04.appendArg` =
+    `Ptk.C01.argAppend`, for ALL current arguments and ALL keys, the failing `assert`s included
+    (`none` on both sides: `data` no digit / `-` after something other than `-`).
+    `C01.argAppend` returns `Option (Option ArgStr)` (outer `none` = AssertionError, the inner
+    option is the new `key_processor.arg`, never `None`); `Option.bind … (Option.map str01)`
+    flattens it to C04's `Option (List Char)`. -/
+theorem arg_append_C04_C01 (cur : Option C01.ArgStr) (k : C01.ArgKey) :
+    C04.appendArg (cur.map str01) (keyCh k) = (C01.argAppend cur k).bind (Option.map str01) := by
+  cases k with
+  | dash =>
+    cases cur with
+    | none => simp [C04.appendArg, C01.argAppend, keyCh, str01]
+    | some a =>
+      have h := str01_eq_dash a
+      simp only [Option.map_some, keyCh, C04.appendArg, C01.argAppend, h]
+      cases (a.neg && a.digits.isEmpty) <;> simp [str01, C04.isDigitC]
+  | digit d =>
+    have h2 : (dch d == '-') = false := by simpa using dch_ne_dash_all d
+    by_cases hd : d < 10
+    · have h1 := dch_digit hd
+      cases cur with
+      | none => simp [C04.appendArg, C01.argAppend, keyCh, str01, h1, h2, hd]
+      | some a => simp [C04.appendArg, C01.argAppend, keyCh, str01, h1, h2, hd]
+    · have h1 : C04.isDigitC (dch d) = false := by rw [dch_digit_iff]; simp [hd]
+      simp [C04.appendArg, C01.argAppend, keyCh, h1, h2, hd]
+
+/-- key_processor.py::KeyPressEvent.append_to_arg_count, a digit (special case of
+    `arg_append_C04_C01`) -/
+theorem arg_append_digit_C04_C01 (cur : Option C01.ArgStr) (d : Nat) :
+    C04.appendArg (cur.map str01) (dch d) = (C01.argAppend cur (.digit d)).bind (Option.map str01) :=
+  arg_append_C04_C01 cur (.digit d)
+
+/-- key_processor.py::KeyPressEvent.append_to_arg_count, `-` (special case of
+    `arg_append_C04_C01`; the former hypothesis "current is None or `-`" is gone: outside it both
+    models now fail the assert) -/
+theorem arg_append_dash_C04_C01 (cur : Option C01.ArgStr) :
+    C04.appendArg (cur.map str01) '-' = (C01.argAppend cur .dash).bind (Option.map str01) :=
+  arg_append_C04_C01 cur .dash
+
+/-- the former disagreement witness (current `"1"`, data `"-"`): both models now answer with the
+    failed assert, as the code does (AssertionError) -/
+example : C04.appendArg ((some ⟨false, [1]⟩ : Option C01.ArgStr).map str01) '-' = none ∧
+    C01.argAppend (some ⟨false, [1]⟩) .dash = none := by decide
+
+/-- `key_processor.arg` after a handler that called `append_to_arg_count` (unchanged when the
+    assert failed): `Ptk.C01.argFeed` = the same with `Ptk.C04.appendArg` -/
+theorem arg_feed_C04_C01 (cur : Option C01.ArgStr) (k : C01.ArgKey) :
+    (C01.argFeed cur k).map str01
+      = (match C04.appendArg (cur.map str01) (keyCh k) with
+         | some s => some s
+         | none => cur.map str01) := by
+  have hsome : ∀ r, C01.argAppend cur k = some r → ∃ a, r = some a := by
+    intro r hr
+    cases k with
+    | dash =>
+      cases cur with
+      | none => simp [C01.argAppend] at hr; exact ⟨_, hr.symm⟩
+      | some a =>
+        simp only [C01.argAppend] at hr
+        split at hr
+        · simp at hr; exact ⟨_, hr.symm⟩
+        · cases hr
+    | digit d =>
+      simp only [C01.argAppend] at hr
+      split at hr
+      · cases cur <;> (simp at hr; exact ⟨_, hr.symm⟩)
+      · cases hr
+  rw [arg_append_C04_C01, C01.argFeed]
+  cases h : C01.argAppend cur k with
+  | none => simp
+  | some r =>
+    obtain ⟨a, rfl⟩ := hsome r h
+    simp
 
 theorem str01_nonneg_ne_dash (ds : List Nat) (h : ∀ x ∈ ds, x < 10) :
     ∀ c cs, ds.map dch = c :: cs → c ≠ '-' := by
